@@ -18,6 +18,7 @@ def run(tier):
     # in which `assert (get_capacity () <= other.get_capacity ())` etc. are available as facts
     res = corpus.run_over(assert_flavour(cfgs), 'svlib.rules.ir_pair', 'analyse_tu')
     irrules.aggregate(ck, res)
+    res = [r for r in res if r['ok']]
     ck.floor('functions writing container words (summed over TUs)', sum(r['res']['functions'] for r in res),
              1500 if tier == 'quick' else 15000)
     ck.floor('exits at which a (pointer, capacity) pair was checked', sum(r['res']['writer_exits'] for r in res),
